@@ -67,9 +67,9 @@ macro "emit_simp" "[" ts:Lean.Parser.Tactic.simpLemma,* "]" : tactic =>
       Npci.controlOctet, Npci.encodeDadrOpt, Npci.encodeSadrOpt, Npci.encodeHop, Npci.encodeMsgType,
       replyHdr, $ts,*])
 
-theorem emit_reply (routes : List (Nat × Bytes)) (src : Bytes) {inv : Nat} {x : Apdu}
+theorem emit_reply (net : Option Nat) (routes : List (Nat × Bytes)) (src : Bytes) {inv : Nat} {x : Apdu}
     (h : IsReply inv x) :
-    ∃ fr hdr, emitApdu routes (peerOf (.localStation src)) x = [fr] ∧ fr.dst = some src ∧
+    ∃ fr hdr, emitApdu net routes (peerOf (.localStation src)) x = [fr] ∧ fr.dst = some src ∧
       replyHdr fr.octets = some hdr ∧ hdr.invoke = inv ∧ hdr.ty = x.ty ∧
       hdr.seg = (decide (x.ty = 3) && x.seg) := by
   obtain ⟨hid, hlt, hshape⟩ := h
